@@ -25,10 +25,12 @@ func (g *deepcopyGen) GenerateType(c gengo.Context, named *types.Named) error {
 		g.processed = map[*types.Named]bool{}
 	}
 
-	return g.generateType(c, named)
+	return g.generateType(c, named, false)
 }
 
-func (g *deepcopyGen) generateType(c gengo.Context, named *types.Named) error {
+// asDependency: the type is used by value in a generated type of the same package; its copy methods are
+// called there, so they are needed whether or not the type carries the tag itself
+func (g *deepcopyGen) generateType(c gengo.Context, named *types.Named, asDependency bool) error {
 	// a field of type G[int] depends on the generic type G itself
 	named = named.Origin()
 
@@ -43,7 +45,7 @@ func (g *deepcopyGen) generateType(c gengo.Context, named *types.Named) error {
 	}
 
 	tags, _ := c.Doc(named.Obj())
-	if !gengo.IsGeneratorEnabled(g, tags) {
+	if !asDependency && !gengo.IsGeneratorEnabled(g, tags) {
 		return nil
 	}
 
@@ -143,7 +145,7 @@ func (in *@Type) DeepCopyInto(out *@Type) {
 	}
 
 	for i := range defers {
-		if err := g.generateType(c, defers[i]); err != nil {
+		if err := g.generateType(c, defers[i], true); err != nil {
 			return err
 		}
 	}
